@@ -359,21 +359,26 @@ def rule_validity(repo, rep, aa, gen, api):
                   f"get_arch_block_config dominates {callee}", "registers emitted without validation")
     # query: append only under truthiness of the result; returns config.ofm_block
     q = api.func("npu_find_block_configs")
-    app = calls_in(q, "valid_block_configs.append")
-    ok = len(app) == 1
+    # names are taken from the dataflow, not fixed: the result of try_block_config, the block read off it, the list that collects NpuShape3D
+    cfg_vars = [st.targets[0].id for st in ast.walk(q) if isinstance(st, ast.Assign) and isinstance(st.targets[0], ast.Name) and isinstance(st.value, ast.Call) and (call_name(st.value) or "").split(".")[-1] == "try_block_config"]
+    app = [c_ for c_ in ast.walk(q) if isinstance(c_, ast.Call) and isinstance(c_.func, ast.Attribute) and c_.func.attr == "append" and isinstance(c_.func.value, ast.Name)
+           and c_.args and isinstance(c_.args[0], ast.Call) and (call_name(c_.args[0]) or "").split(".")[-1] == "NpuShape3D"]
+    ok = len(app) == 1 and len(cfg_vars) == 1
+    res_name = app[0].func.value.id if app else "?"
     if ok:
-        par = [n for n in ast.walk(q) if isinstance(n, ast.If) and any(x is app[0] for x in ast.walk(n)) and norm(n.test) == "config"]
-        ok = len(par) >= 1 and norm(app[0].args[0]) == "NpuShape3D(ofm_block.height, ofm_block.width, ofm_block.depth)"
-        ob = [s for s in ast.walk(q) if isinstance(s, ast.Assign) and norm(s.targets[0]) == "ofm_block"]
-        ok = ok and len(ob) == 1 and norm(ob[0].value) == "config.ofm_block"
+        cfg = cfg_vars[0]
+        par = [n for n in ast.walk(q) if isinstance(n, ast.If) and any(x is app[0] for x in ast.walk(n)) and norm(n.test) in (cfg, f"{cfg} is not None")]
+        ob = [s for s in ast.walk(q) if isinstance(s, ast.Assign) and isinstance(s.targets[0], ast.Name) and norm(s.value) == f"{cfg}.ofm_block"]
+        blk = ob[0].targets[0].id if len(ob) == 1 else f"{cfg}.ofm_block"
+        ok = len(par) >= 1 and norm(app[0].args[0]) == f"NpuShape3D({blk}.height, {blk}.width, {blk}.depth)"
     rep.check(ok, "C15-a", f"{API}:npu_find_block_configs", "a configuration is offered only if try_block_config returned it, as NpuShape3D(height, width, depth) of config.ofm_block", "")
     # ... and only configurations found by this call: every return hands back the list built here from this call's arguments;
     # a process-wide memo keyed by a digest of the operation offers configurations computed for a different operation whenever
     # the key omits something try_block_config looks at (activation LUT, accumulator type, layouts, rounding ...)
     rets = [r for r in walk_no_nested(q) if isinstance(r, ast.Return)]
-    init = [s_ for s_ in walk_no_nested(q) if isinstance(s_, ast.Assign) and norm(s_.targets[0]) == "valid_block_configs"]
+    init = [s_ for s_ in walk_no_nested(q) if isinstance(s_, ast.Assign) and norm(s_.targets[0]) == res_name]
     fresh = len(init) == 1 and str(norm(init[0].value)) in ("[]", "list()")
-    rep.check(fresh and bool(rets) and all(r.value is not None and str(norm(r.value)) in ("valid_block_configs", "list(valid_block_configs)") for r in rets), "C15-a", f"{API}:npu_find_block_configs",
+    rep.check(fresh and bool(rets) and all(r.value is not None and str(norm(r.value)) in (res_name, f"list({res_name})") for r in rets), "C15-a", f"{API}:npu_find_block_configs",
               "every return offers the list this call built (starting empty) from try_block_config results", f"returns {[str(norm(r.value))[:60] if r.value is not None else 'None' for r in rets]}")
     mod_stores = {str(norm(t_)) for st in api.tree.body if isinstance(st, (ast.Assign, ast.AnnAssign)) for t_ in (st.targets if isinstance(st, ast.Assign) else [st.target])
                   if isinstance(t_, ast.Name) and st.value is not None and (isinstance(st.value, (ast.Dict, ast.List, ast.Set)) or (isinstance(st.value, ast.Call) and (call_name(st.value) or "").split(".")[-1] in ("dict", "list", "set", "defaultdict", "OrderedDict", "lru_cache")))}
